@@ -29,6 +29,25 @@ import (
 
 func main() { hc.Main(run) }
 
+// source: where the analytic query under test takes its rows from — the temporary table `t`, or a derived
+// table / CTE over `t` whose rows (read back through a plain SELECT) have also been stored in the temporary
+// table `m`; `ref` is the plain table the reference order and the reference aggregates are taken from.
+type source struct {
+	with, from, ref string
+	derived         bool
+	baseTable       string // text of `t` for the replay record when the rows are derived
+	kind            string
+}
+
+var src = source{from: "t", ref: "t"}
+
+func replayTable(rows [][]value.Primary) string {
+	if src.derived {
+		return src.baseTable
+	}
+	return tableText(rows)
+}
+
 // ---------- reference normalisation (documented ladder; independent of lib/query) ----------
 
 func normRef(p value.Primary) string {
@@ -60,6 +79,24 @@ func normRef(p value.Primary) string {
 	return "N"
 }
 
+// sortKeyRef: two ORDER BY values are peers iff they are the same number (whatever the notation: 1, 1.0,
+// '1', ' 1 ', '1e0'; 0, -0.0), the same instant, or the same text (upper-cased, trimmed), or both NULL —
+// the ties of ORDER BY.  (PARTITION BY keys are different: there 1 and 1.0 are different keys, see normRef.)
+func sortKeyRef(p value.Primary) string {
+	if value.IsNull(p) {
+		return "N"
+	}
+	if i := value.ToIntegerStrictly(p); !value.IsNull(i) {
+		return "#" + hc.EncF(float64(i.(*value.Integer).Raw()))
+	}
+	if f := value.ToFloat(p); !value.IsNull(f) {
+		if x := f.(*value.Float).Raw(); !math.IsNaN(x) {
+			return "#" + hc.EncF(x+0)
+		}
+	}
+	return normRef(p)
+}
+
 // sort cell token: profile~txt (txt = upper(trim(ToString v)) for numbers, as NewSortValue stores it)
 func cellTok(p value.Primary) string {
 	txt := "-"
@@ -89,7 +126,17 @@ const (
 	kFloat
 	kText
 	kDate
+	kMixedNum // equal numbers in integer / float / string notation
+	nSortKinds
 )
+
+var mixedNum = [][]value.Primary{
+	{value.NewInteger(1), value.NewFloat(1.0), value.NewString("1"), value.NewString(" 1 "), value.NewString("1e0"), value.NewString("1.0")},
+	{value.NewInteger(0), value.NewFloat(0), value.NewString("-0.0"), value.NewString("0"), value.NewString("0.0"), value.NewString(" -0 ")},
+	{value.NewInteger(2), value.NewFloat(2.0), value.NewString("2"), value.NewString("2.00")},
+	{value.NewFloat(2.5), value.NewString("2.5"), value.NewString(" 25e-1 ")},
+	{value.NewInteger(-1), value.NewFloat(-1.0), value.NewString("-1"), value.NewString("-1.0")},
+}
 
 func partVal(g *hc.Gen, kind int) value.Primary {
 	if g.Intn(6) == 0 {
@@ -105,9 +152,9 @@ func partVal(g *hc.Gen, kind int) value.Primary {
 		case 0:
 			return value.NewInteger(1)
 		case 1:
-			return value.NewString(g.Pick("1", " 1 ", "true", "0", "2"))
+			return value.NewString(g.Pick("1", " 1 ", "true", "0", "2", "1e0", "1.0", "-0.0", "0.0"))
 		case 2:
-			return value.NewFloat([]float64{1.5, 2.5}[g.Intn(2)])
+			return value.NewFloat([]float64{1.5, 2.5, 1.0, 0}[g.Intn(4)])
 		case 3:
 			return value.NewString(g.Pick("1.5", "2012-02-03", "2012-02-03 00:00:00"))
 		}
@@ -121,6 +168,9 @@ func sortVal(g *hc.Gen, kind int) value.Primary {
 		return value.NewNull()
 	}
 	switch kind {
+	case kMixedNum:
+		grp := mixedNum[g.Intn(len(mixedNum))]
+		return grp[g.Intn(len(grp))]
 	case kInt:
 		if g.Intn(5) == 0 {
 			return value.NewString(g.Pick("1", " 2 ", "-1", "0", "3"))
@@ -360,6 +410,11 @@ var sqlAggs = []string{"COUNT", "SUM", "AVG", "MIN", "MAX", "MEDIAN", "STDEV", "
 var tieSafe = map[string]bool{"rank": true, "dense_rank": true, "cume_dist": true, "percent_rank": true}
 
 var intRe = regexp.MustCompile(`^-?[0-9]+$`)
+var colRe = regexp.MustCompile(`\b(id|p1|p2|k1|k2|x)\b`)
+
+// qualify the column references of a call: inside a select list whose aliases reuse the column names an
+// unqualified reference would be ambiguous
+func qualified(sql, alias string) string { return colRe.ReplaceAllString(sql, alias+".$1") }
 
 func litInt(i int) string {
 	if i < 0 {
@@ -550,7 +605,7 @@ func run(seed int64, n int, dir string, _ []string) {
 	for t := 0; t < tables; t++ {
 		nrows := []int{0, 1, 2, 3, 4, 5, 7, 9, 12, 16, 25, 40, 70, 120, 250, 400}[g.Intn(16)]
 		pkinds := [2]int{g.Intn(4), g.Intn(4)}
-		skinds := [2]int{g.Intn(4), g.Intn(4)}
+		skinds := [2]int{g.Intn(nSortKinds), g.Intn(nSortKinds)}
 		akind := []int{aInts, aInts, aLetters, aMixed}[g.Intn(4)]
 		rows := make([][]value.Primary, nrows)
 		for i := range rows {
@@ -567,12 +622,14 @@ func run(seed int64, n int, dir string, _ []string) {
 		if t == 1 {
 			// corpus: ORDER BY ties between an integer and the equal float (1 = 1.0 is TRUE, ORDER BY leaves
 			// them in input order) — RANK must not separate them
-			nrows, akind = 4, aLetters
+			// in both directions (float first, then integer, then float again, then integer)
+			nrows, akind = 5, aLetters
 			rows = [][]value.Primary{
-				{value.NewInteger(0), value.NewNull(), value.NewInteger(1), value.NewNull(), value.NewString("a")},
-				{value.NewInteger(0), value.NewNull(), value.NewFloat(1.0), value.NewNull(), value.NewString("b")},
-				{value.NewInteger(0), value.NewNull(), value.NewInteger(1), value.NewNull(), value.NewString("c")},
-				{value.NewInteger(0), value.NewNull(), value.NewInteger(2), value.NewNull(), value.NewString("d")},
+				{value.NewInteger(0), value.NewNull(), value.NewFloat(1.0), value.NewNull(), value.NewString("a")},
+				{value.NewInteger(0), value.NewNull(), value.NewInteger(1), value.NewNull(), value.NewString("b")},
+				{value.NewInteger(0), value.NewNull(), value.NewString("1e0"), value.NewNull(), value.NewString("c")},
+				{value.NewInteger(0), value.NewNull(), value.NewInteger(1), value.NewNull(), value.NewString("d")},
+				{value.NewInteger(0), value.NewNull(), value.NewInteger(2), value.NewNull(), value.NewString("e")},
 			}
 		}
 		if err := pr.DeclareTable("t", colNames, rows); err != nil {
@@ -613,6 +670,11 @@ func run(seed int64, n int, dir string, _ []string) {
 				c = genCase(g, nrows, akind)
 			}
 			runCase(g, o, pr, rows, c, akind, cpu)
+		}
+		if t >= 2 {
+			for d := 0; d < 3; d++ {
+				derivedCases(g, o, pr, rows, akind, cpu)
+			}
 		}
 		pr.DisposeTable("t")
 	}
@@ -728,9 +790,12 @@ type outRow struct {
 
 func runCase(g *hc.Gen, o *hc.Out, pr *hc.Proc, rows [][]value.Primary, c caseSpec, akind, cpu int) {
 	nrows := len(rows)
-	sql := "SELECT id, p1, p2, k1, k2, x, " + c.callSQL() + " AS r FROM t"
+	sql := src.with + "SELECT id, p1, p2, k1, k2, x, " + c.callSQL() + " AS r FROM " + src.from
 	replay := func(extra map[string]interface{}) map[string]interface{} {
-		m := map[string]interface{}{"sql": sql, "table": tableText(rows), "cpu": cpu}
+		m := map[string]interface{}{"sql": sql, "table": replayTable(rows), "cpu": cpu}
+		if src.derived {
+			m["rows_of_the_derived_table_stored_as_m"] = strings.Replace(tableText(rows), "DECLARE t ", "DECLARE m ", 1)
+		}
 		for k, v := range extra {
 			m[k] = v
 		}
@@ -751,7 +816,7 @@ func runCase(g *hc.Gen, o *hc.Out, pr *hc.Proc, rows [][]value.Primary, c caseSp
 		for i, it := range c.items {
 			s[i] = it.sql()
 		}
-		ov, oerr := safeQuery(pr, "SELECT id FROM t ORDER BY "+strings.Join(s, ", "))
+		ov, oerr := safeQuery(pr, "SELECT id FROM "+src.ref+" ORDER BY "+strings.Join(s, ", "))
 		if oerr != nil || ov.RecordLen() != nrows {
 			lawCap(o, "analytic:reference_order_error", replay(map[string]interface{}{"error": fmt.Sprint(oerr)}))
 			return
@@ -938,17 +1003,39 @@ func runCase(g *hc.Gen, o *hc.Out, pr *hc.Proc, rows [][]value.Primary, c caseSp
 		return
 	}
 
+	if src.derived {
+		// the same outer query over the plain temporary table holding the derived table's rows
+		msql := "SELECT id, " + c.callSQL() + " AS r FROM m"
+		mv, merr := safeQuery(pr, msql)
+		if merr != nil || mv.RecordLen() != nrows {
+			lawCap(o, "analytic_over_derived_eq_over_materialised", replay(map[string]interface{}{"materialised_sql": msql, "error": fmt.Sprint(merr)}))
+			return
+		}
+		for i := 0; i < mv.RecordLen(); i++ {
+			id := intCell(hc.ViewCell(mv, i, 0))
+			if id < 0 || id >= nrows || !sameValue(got[id].r, hc.ViewCell(mv, i, 1), approxFn(c)) {
+				extra := map[string]interface{}{"materialised_sql": msql, "id": id, "over_materialised": hc.EncVal(hc.ViewCell(mv, i, 1)), "over_materialised_text": hc.ViewCell(mv, i, 1).String()}
+				if id >= 0 && id < nrows {
+					extra["over_derived"], extra["over_derived_text"] = hc.EncVal(got[id].r), got[id].r.String()
+				}
+				lawCap(o, "analytic_over_derived_eq_over_materialised", replay(extra))
+				break
+			}
+		}
+		o.Count("law:derived_eq_materialised")
+	}
+
 	if c.witness == "" {
 		multiCheck(g, o, pr, rows, c, akind, cpu, got)
 	}
 
 	if c.witness == "rank_int_float_ties" {
-		// rows 0, 1, 2 tie under ORDER BY k1 (1, 1.0, 1): rank 1 each; row 3 (k1 = 2): rank 4
-		want := []int64{1, 1, 1, 4}
+		// rows 0..3 tie under ORDER BY k1 (1.0, 1, '1e0', 1): rank 1 each; row 4 (k1 = 2): rank 5
+		want := []int64{1, 1, 1, 1, 5}
 		for id, w := range want {
 			if iv, ok := got[id].r.(*value.Integer); !ok || iv.Raw() != w {
 				lawCap(o, "analytic:rank_int_float_ties", replay(map[string]interface{}{"id": id, "got": hc.EncVal(got[id].r), "want": w,
-					"note": "1 = 1.0 is TRUE and ORDER BY treats them as ties, but SortValue.EquivalentTo(Integer, Float) is false"}))
+					"note": "1 = 1.0 is TRUE and ORDER BY treats them as ties; SortValue.EquivalentTo must hold between Integer and Float in both directions"}))
 				break
 			}
 		}
@@ -969,7 +1056,7 @@ func runCase(g *hc.Gen, o *hc.Out, pr *hc.Proc, rows [][]value.Primary, c caseSp
 			if it.col < 0 {
 				ks[j] = "#" + strconv.Itoa(id)
 			} else {
-				ks[j] = normRef(rows[id][it.col])
+				ks[j] = sortKeyRef(rows[id][it.col])
 			}
 		}
 		skey[id] = strings.Join(ks, "|")
@@ -1170,7 +1257,7 @@ func runCase(g *hc.Gen, o *hc.Out, pr *hc.Proc, rows [][]value.Primary, c caseSp
 					d = "DISTINCT "
 				}
 				name := strings.TrimPrefix(c.fn, "agg:")
-				rv, rerr := safeQuery(pr, "SELECT "+name+"("+d+"x) FROM t WHERE "+idList(ids))
+				rv, rerr := safeQuery(pr, "SELECT "+name+"("+d+"x) FROM "+src.ref+" WHERE "+idList(ids))
 				if rerr != nil || rv.RecordLen() != 1 {
 					lawCap(o, "analytic:reference_aggregate_error", replay(map[string]interface{}{"error": fmt.Sprint(rerr)}))
 					reported++
@@ -1286,7 +1373,7 @@ func multiCheck(g *hc.Gen, o *hc.Out, pr *hc.Proc, rows [][]value.Primary, c cas
 				e.pcols = []int{cP1 + cP2 - shared, shared}
 			}
 		}
-		v, err := safeQuery(pr, "SELECT id, "+e.callSQL()+" AS r FROM t")
+		v, err := safeQuery(pr, src.with+"SELECT id, "+e.callSQL()+" AS r FROM "+src.from)
 		if err != nil || v.RecordLen() != nrows {
 			continue // the single-function behaviour of this one is not this check's business
 		}
@@ -1311,7 +1398,7 @@ func multiCheck(g *hc.Gen, o *hc.Out, pr *hc.Proc, rows [][]value.Primary, c cas
 	for k, mi := range perm {
 		colSQL[k] = members[mi].c.callSQL() + fmt.Sprintf(" AS r%d", k+1)
 	}
-	sql := "SELECT id, " + strings.Join(colSQL, ", ") + " FROM t"
+	sql := src.with + "SELECT id, " + strings.Join(colSQL, ", ") + " FROM " + src.from
 	o.Count(fmt.Sprintf("multi:%d functions", len(members)))
 	names := make([]string, len(members))
 	for k, mi := range perm {
@@ -1319,7 +1406,7 @@ func multiCheck(g *hc.Gen, o *hc.Out, pr *hc.Proc, rows [][]value.Primary, c cas
 	}
 	o.NonTrivial(fmt.Sprintf("multi|%s|shared=%v|rows<=%d", strings.Join(names, "+"), shared >= 0, sizeBand(nrows)))
 	replay := func(extra map[string]interface{}) map[string]interface{} {
-		m := map[string]interface{}{"sql": sql, "table": tableText(rows), "cpu": cpu}
+		m := map[string]interface{}{"sql": sql, "table": replayTable(rows), "cpu": cpu}
 		for k, v := range extra {
 			m[k] = v
 		}
@@ -1349,11 +1436,149 @@ func multiCheck(g *hc.Gen, o *hc.Out, pr *hc.Proc, rows [][]value.Primary, c cas
 					"id": id, "column": fmt.Sprintf("r%d", k+1), "function": members[mi].c.callSQL(),
 					"in_combined_query": hc.EncVal(cell), "alone": hc.EncVal(members[mi].single[id]),
 					"in_combined_query_text": cell.String(), "alone_text": members[mi].single[id].String(),
-					"single_sql": "SELECT id, " + members[mi].c.callSQL() + " AS r FROM t"}))
+					"single_sql": src.with + "SELECT id, " + members[mi].c.callSQL() + " AS r FROM " + src.from}))
 				return
 			}
 		}
 	}
+}
+
+// derivedCases: analytic functions over a derived table / CTE that itself contains an analytic function,
+// with a permuted and renamed select list (the column positions inside differ from the positions outside),
+// over `t` directly or through DISTINCT / GROUP BY / LIMIT-OFFSET.  The rows of the derived table are read
+// back with a plain SELECT and stored in the temporary table `m`; the outer query over the derived table is
+// then checked like every other case against these rows (model, definitional laws, several functions in
+// one list) and must equal the same query over `m`.
+func derivedCases(g *hc.Gen, o *hc.Out, pr *hc.Proc, base [][]value.Primary, akind, cpu int) {
+	nbase := len(base)
+	// innermost level: ids stay 0..n'-1
+	l0, l0kind, off, q := "t", "plain", 0, "t"
+	switch g.Intn(5) {
+	case 0:
+		l0, l0kind = "(SELECT DISTINCT id, p1, p2, k1, k2, x FROM t) s0", "distinct"
+	case 1:
+		l0, l0kind = "(SELECT id, MIN(p1) AS p1, MAX(p2) AS p2, MIN(k1) AS k1, MAX(k2) AS k2, MAX(x) AS x FROM t GROUP BY id) s0", "groupby"
+	case 2:
+		lim := []int{0, 1, 2, 3, nbase / 2, nbase, nbase + 2}[g.Intn(7)]
+		if nbase > 1 && g.Intn(2) == 0 {
+			off = g.Intn(nbase)
+		}
+		if off > 0 {
+			l0 = fmt.Sprintf("(SELECT id - %d AS id, p1, p2, k1, k2, x FROM t LIMIT %d OFFSET %d) s0", off, lim, off)
+		} else {
+			l0 = fmt.Sprintf("(SELECT id, p1, p2, k1, k2, x FROM t LIMIT %d) s0", lim)
+		}
+		l0kind = "limit"
+	}
+	if l0 != "t" {
+		q = "s0"
+	}
+	// the inner analytic function: integer valued and independent of the order among ties
+	var in caseSpec
+	ok := false
+	for try := 0; try < 60 && !ok; try++ {
+		in = genCase(g, nbase, akind)
+		switch in.fn {
+		case "row_number", "rank", "dense_rank", "ntile", "count", "count_star":
+			ok = orderRobust(in) && len(in.items) > 0
+		}
+	}
+	if !ok {
+		return
+	}
+	// the select list of the derived table: renamed and permuted
+	names := map[string]string{"p1": "p1", "p2": "p2", "k1": "k1", "k2": "k2", "x": "x"}
+	if g.Intn(2) == 0 {
+		names["p1"], names["p2"] = "p2", "p1"
+	}
+	if g.Intn(2) == 0 {
+		names["k1"], names["k2"] = "k2", "k1"
+	}
+	use := g.Pick("x", "k2", "k1", "extra", "extra")
+	outKind := akind
+	items := []string{"id"}
+	for _, out := range []string{"p1", "p2", "k1", "k2", "x"} {
+		if out == use {
+			items = append(items, qualified(in.callSQL(), q)+" AS "+out)
+			if out == "x" {
+				outKind = aInts
+			}
+			continue
+		}
+		if names[out] == out {
+			items = append(items, q+"."+out)
+		} else {
+			items = append(items, q+"."+names[out]+" AS "+out)
+		}
+	}
+	items[0] = q + ".id"
+	if use == "extra" {
+		items = append(items, qualified(in.callSQL(), q)+" AS r0")
+	}
+	perm := g.Perm(len(items))
+	list := make([]string, len(items))
+	for k, pi := range perm {
+		list[k] = items[pi]
+	}
+	l1 := "SELECT " + strings.Join(list, ", ") + " FROM " + l0
+	s := source{ref: "m", derived: true, baseTable: tableText(base), kind: l0kind}
+	if g.Intn(3) == 0 {
+		s.with, s.from = "WITH d AS ("+l1+") ", "d"
+		s.kind += "+cte"
+	} else {
+		s.from = "(" + l1 + ") d"
+	}
+	report := func(what string, extra map[string]interface{}) {
+		m := map[string]interface{}{"derived_table": s.with + s.from, "table": s.baseTable, "cpu": cpu, "what": what}
+		for k, v := range extra {
+			m[k] = v
+		}
+		lawCap(o, "analytic_over_derived_eq_over_materialised", m)
+	}
+	// read the derived table back and store its rows
+	dv, err := safeQuery(pr, s.with+"SELECT id, p1, p2, k1, k2, x FROM "+s.from)
+	if err != nil {
+		report("the derived table cannot be read", map[string]interface{}{"error": firstLine(err.Error())})
+		return
+	}
+	n := dv.RecordLen()
+	rows := make([][]value.Primary, n)
+	for i := 0; i < n; i++ {
+		id := intCell(hc.ViewCell(dv, i, 0))
+		if id < 0 || id >= n || rows[id] != nil {
+			report("the ids of the derived table are not 0..n-1", map[string]interface{}{"id": id, "rows": n})
+			return
+		}
+		r := make([]value.Primary, nCols)
+		for j := 0; j < nCols; j++ {
+			r[j] = hc.ViewCell(dv, i, 1+j)
+			if _, ok := hc.SqlLit(r[j]); !ok {
+				return // a value without a literal: cannot be stored faithfully
+			}
+		}
+		rows[id] = r
+	}
+	if err := pr.DeclareTable("m", colNames, rows); err != nil {
+		report("the rows of the derived table cannot be stored", map[string]interface{}{"error": firstLine(err.Error())})
+		return
+	}
+	o.Count("derived:" + s.kind)
+	o.Count("derived:inner=" + in.fn + " as " + use)
+	src = s
+	for k := 0; k < 2; k++ {
+		var c caseSpec
+		ok := false
+		for try := 0; try < 40 && !ok; try++ {
+			c = genCase(g, n, outKind)
+			ok = orderRobust(c)
+		}
+		if ok {
+			o.NonTrivial(fmt.Sprintf("derived|%s|inner=%s as %s|outer=%s|%s", s.kind, in.fn, use, c.fn, c.w.class()))
+			runCase(g, o, pr, rows, c, outKind, cpu)
+		}
+	}
+	src = source{from: "t", ref: "t"}
+	pr.DisposeTable("m")
 }
 
 func intCell(p value.Primary) int {
